@@ -1,6 +1,7 @@
 package symex
 
 import (
+	"regexp"
 	"crypto/sha256"
 	"encoding/hex"
 	"fmt"
@@ -35,6 +36,37 @@ var overlayDirs = map[string]string{
 	"zzverif": "internal/zzverif",
 }
 
+func requirementsMet(file, repoDir string) bool {
+	b, err := os.ReadFile(file)
+	if err != nil {
+		return false
+	}
+	for _, line := range strings.Split(string(b), "\n") {
+		if !strings.HasPrefix(line, "// requires: ") {
+			continue
+		}
+		parts := strings.SplitN(strings.TrimPrefix(line, "// requires: "), ": ", 2)
+		if len(parts) != 2 {
+			return false
+		}
+		re, err := regexp.Compile(parts[1])
+		if err != nil {
+			return false
+		}
+		matches, _ := filepath.Glob(filepath.Join(repoDir, parts[0]))
+		found := false
+		for _, m := range matches {
+			if src, err := os.ReadFile(m); err == nil && re.Match(src) {
+				found = true
+			}
+		}
+		if !found {
+			return false
+		}
+	}
+	return true
+}
+
 // BuildOverlay lists the harness files and where they appear inside the repo.
 func BuildOverlay(harnessDir, repoDir string) (map[string]string, error) {
 	ov := map[string]string{}
@@ -44,6 +76,13 @@ func BuildOverlay(harnessDir, repoDir string) (map[string]string, error) {
 			base := filepath.Base(f)
 			if !strings.HasPrefix(base, "zz") {
 				base = "zz_verif_" + base
+			}
+			// an optional harness file names the declarations of the repository it relies on
+			// ("// requires: <path>: <regexp>" lines); when one of them is gone or has another
+			// signature, the stub next to it (<file>.stub, same declarations, no use of them) is taken
+			// instead, so that the other harnesses of the package still compile
+			if strings.HasSuffix(f, "_opt.go") && !requirementsMet(f, repoDir) {
+				f += ".stub"
 			}
 			ov[filepath.Join(repoDir, rel, base)] = f
 		}
